@@ -147,6 +147,44 @@ fn sweep<T: Fam>(ctx: &Ctx, ln: u32, level: usize, known: &Known) {
     });
 }
 
+const PAYLOAD_ALPHA: [&str; 14] = ["<", ">", "&", "'", "\"", " ", "\t", "\n", "\r", "]", ";", "#", "a", "é"];
+
+/// Every string up to `max` over the payload alphabet in every payload position of `T`.
+fn sweep_payloads<T: Fam>(ctx: &Ctx, ln: u32, max: u32, known: &Known) {
+    if T::payload("a").is_empty() {
+        return;
+    }
+    let k = PAYLOAD_ALPHA.len() as u64;
+    let cfgs = SerCfg::all();
+    ctx.layer(&format!("payloads.{}", T::NAME), ln, count_upto(k, max), json!({"alphabet": PAYLOAD_ALPHA, "max_len": max, "serializer_configurations": cfgs.len()}), |i, acc| {
+        let mut d = Vec::new();
+        decode_upto(k, max, i, &mut d);
+        let s: String = d.iter().map(|&x| PAYLOAD_ALPHA[x as usize]).collect();
+        for (pi, v) in T::payload(&s).iter().enumerate() {
+            for &cfg in &cfgs {
+                acc.evaluations += 1;
+                acc.traces += 1;
+                acc.transitions += 3;
+                match round_trip(v, cfg, known) {
+                    Outcome::Ok(_) => acc.nt_count += 1,
+                    Outcome::Known(id, what) => acc.known(id, || format!("{} {:?}: {}", T::NAME, v, what)),
+                    Outcome::Bad(what) => {
+                        acc.count(&format!("violations.{}", T::NAME), 1);
+                        if std::env::var("QXMC_TRIAGE").is_ok() && cfg == SerCfg::plain() {
+                            eprintln!("TRIAGE {} {:?}: {}", T::NAME, v, what);
+                        }
+                        acc.violation(
+                            (ln, i),
+                            format!("{} value {:?} with {:?}: {}", T::NAME, v, cfg, what),
+                            json!({"type": T::NAME, "payload": s, "payload_position": pi, "cfg": cfg.index()}),
+                        )
+                    }
+                }
+            }
+        }
+    });
+}
+
 pub fn run(ctx: &Ctx) {
     ctx.set_rule(
         "for each of the 21 types of the family (attributes; optional attributes; child elements of string/number/bool/char; $text \
@@ -156,7 +194,9 @@ pub fn run(ctx: &Ctx) {
          fields; numeric extremes; top-level enum; renamed root/fields) EVERY value of the cartesian product of its small field domains \
          (hostile string pool: markup characters, entity look-alikes, ]]>, quotes, blanks inside, non-ASCII, empty; lists of length \
          0..2/3; options; numeric extremes) x 3 quote levels x indent off/on x expand-empty off/on x root name from the type / \
-         with_root: to_string must succeed and from_str and from_reader of the output must equal the value. non-trivial = every \
+         with_root; plus, per payload position of each type (attribute, element text, $text, $value, list item in attribute / text, \
+         map value, newtype / struct / $text variant payload, char), every string up to length 3/4 over {< > & ' \" space tab LF CR ] ; # a é} \
+         inside that position's documented domain: to_string must succeed and from_str and from_reader of the output must equal the value. non-trivial = every \
          round trip (all values carry markup-relevant payloads or structure); distinct by construction. states = distinct document \
          skeletons produced",
     );
@@ -172,19 +212,28 @@ pub fn run(ctx: &Ctx) {
         ($($t:ident),*) => { $( sweep::<$t>(ctx, ln, level, &known); ln += 1; )* };
     }
     crate::for_each_type!(go);
+    let max = ctx.tier.pick(3, 4);
+    macro_rules! go2 {
+        ($($t:ident),*) => { $( sweep_payloads::<$t>(ctx, ln, max, &known); ln += 1; )* };
+    }
+    crate::for_each_type!(go2);
     let _ = ln;
 }
 
 pub fn replay(case: &Value) -> Result<(), String> {
     let name = case["type"].as_str().ok_or("no type")?;
-    let idx = case["value_index"].as_u64().unwrap() as usize;
+    let idx = case["value_index"].as_u64().unwrap_or(0) as usize;
     let cfg = SerCfg::from_index(case["cfg"].as_u64().unwrap());
     let level = case["level"].as_u64().unwrap_or(0) as usize;
     let known = Known::load();
     let mut result = Err(format!("unknown type {}", name));
     macro_rules! go {
         ($($t:ident),*) => { $( if name == <$t as Fam>::NAME {
-            let vals = <$t as Fam>::values(level);
+            let vals = match case.get("payload").and_then(|p| p.as_str()) {
+                Some(p) => <$t as Fam>::payload(p),
+                None => <$t as Fam>::values(level),
+            };
+            let idx = case.get("payload_position").and_then(|p| p.as_u64()).map_or(idx, |p| p as usize);
             let v = &vals[idx];
             println!("type {} value {:?} {:?}", name, v, cfg);
             println!("serialized: {:?}", ser(v, cfg));
